@@ -655,6 +655,495 @@ theorem mkCell_consP (m : Mesh) (k : Id) (verts : List Id) (h : ConsP m) (hk : k
     obtain ⟨e, he, hh⟩ := this
     exact ⟨e, by rw [hedges]; exact he, hh⟩
 
+/-! ### the parser pattern -/
+
+theorem empty_consP : ConsP empty := by
+  refine ⟨⟨?_, ?_, ?_, ?_, ?_, ?_⟩, ?_, ?_, ⟨?_, ?_⟩, ?_, ?_⟩ <;> simp [empty, OwnEdgesP, OwnCellsP, CellsNodupP, CyclesJoinedP]
+
+theorem foldl_mkVertex_consP (vs : List (Id × Rat × Rat)) (m : Mesh) (h : ConsP m)
+    (hnd : (vs.map (·.1)).Nodup) (hdis : ∀ k ∈ vs.map (·.1), k ∉ m.vertices.map (·.1)) :
+    let m' := vs.foldl (fun m p => m.mkVertex p.1 p.2.1 p.2.2) m
+    ConsP m' ∧ m'.vertices.map (·.1) = m.vertices.map (·.1) ++ vs.map (·.1) ∧
+      m'.edges = m.edges ∧ m'.cells = m.cells := by
+  induction vs generalizing m with
+  | nil => simp [h]
+  | cons p vs ih =>
+    simp only [List.map_cons, List.nodup_cons, List.mem_cons, forall_eq_or_imp] at hnd hdis
+    obtain ⟨c1, c2, c3, c4⟩ := mkVertex_consP m p.1 p.2.1 p.2.2 h hdis.1
+    have := ih (m.mkVertex p.1 p.2.1 p.2.2) c1 hnd.2 (by
+      intro k hk
+      rw [c2]
+      simp only [List.mem_append, List.mem_singleton, not_or]
+      exact ⟨hdis.2 k hk, fun hkp => hnd.1 (hkp ▸ hk)⟩)
+    simp only [List.foldl_cons, List.map_cons]
+    obtain ⟨d1, d2, d3, d4⟩ := this
+    refine ⟨d1, ?_, by rw [d3, c3], by rw [d4, c4]⟩
+    rw [d2, c2]; simp
+
+theorem mkEdge_joinedP_mono (m : Mesh) (k a b : Id) (hk : k ∉ m.edges.map (·.1)) {x y : Id}
+    (h : JoinedP m x y) : JoinedP (m.mkEdge k a b) x y := by
+  obtain ⟨e, he, hh⟩ := h
+  refine ⟨e, ?_, hh⟩
+  rw [mkEdge_edges, filter_ne_of_not_mem_keys _ _ hk]
+  exact List.mem_append_left _ he
+
+theorem mkEdge_joinedP_new (m : Mesh) (k a b : Id) : JoinedP (m.mkEdge k a b) a b := by
+  refine ⟨(k, { id := k, v1 := a, v2 := b }), ?_, Or.inl ⟨rfl, rfl⟩⟩
+  rw [mkEdge_edges]
+  exact List.mem_append_right _ (by simp)
+
+theorem mkEdge_ekeys (m : Mesh) (k a b : Id) (hk : k ∉ m.edges.map (·.1)) :
+    (m.mkEdge k a b).edges.map (·.1) = m.edges.map (·.1) ++ [k] := by
+  rw [mkEdge_edges, filter_ne_of_not_mem_keys _ _ hk]; simp
+
+theorem foldl_mkEdge_consP (es : List (Id × Id × Id)) (m : Mesh) (h : ConsP m)
+    (hnd : (es.map (·.1)).Nodup) (hdis : ∀ k ∈ es.map (·.1), k ∉ m.edges.map (·.1))
+    (hends : ∀ e ∈ es, e.2.1 ∈ m.vertices.map (·.1) ∧ e.2.2 ∈ m.vertices.map (·.1)) :
+    let m' := es.foldl (fun m p => m.mkEdge p.1 p.2.1 p.2.2) m
+    ConsP m' ∧ m'.vertices.map (·.1) = m.vertices.map (·.1) ∧
+      m'.edges.map (·.1) = m.edges.map (·.1) ++ es.map (·.1) ∧ m'.cells = m.cells ∧
+      (∀ x y, JoinedP m x y → JoinedP m' x y) ∧ (∀ e ∈ es, JoinedP m' e.2.1 e.2.2) := by
+  induction es generalizing m with
+  | nil => simp [h]
+  | cons p es ih =>
+    simp only [List.map_cons, List.nodup_cons, List.mem_cons, forall_eq_or_imp] at hnd hdis hends
+    have c1 := mkEdge_consP m p.1 p.2.1 p.2.2 h hdis.1 hends.1.1 hends.1.2
+    have c2 := mkEdge_vkeys m p.1 p.2.1 p.2.2
+    have c3 := mkEdge_ekeys m p.1 p.2.1 p.2.2 hdis.1
+    have := ih (m.mkEdge p.1 p.2.1 p.2.2) c1 hnd.2 (by
+      intro k hk
+      rw [c3]
+      simp only [List.mem_append, List.mem_singleton, not_or]
+      exact ⟨hdis.2 k hk, fun hkp => hnd.1 (hkp ▸ hk)⟩) (by rw [c2]; exact hends.2)
+    simp only [List.foldl_cons, List.map_cons]
+    obtain ⟨d1, d2, d3, d4, d5, d6⟩ := this
+    refine ⟨d1, by rw [d2, c2], by rw [d3, c3]; simp, by rw [d4]; rfl, ?_, ?_⟩
+    · intro x y hxy
+      exact d5 x y (mkEdge_joinedP_mono m _ _ _ hdis.1 hxy)
+    · intro e he
+      rcases List.mem_cons.mp he with he | he
+      · subst he; exact d5 _ _ (mkEdge_joinedP_new m _ _ _)
+      · exact d6 e he
+
+theorem foldl_mkCell_consP (cs : List (Id × List Id)) (m : Mesh) (h : ConsP m)
+    (hnd : (cs.map (·.1)).Nodup) (hdis : ∀ k ∈ cs.map (·.1), k ∉ m.cells.map (·.1))
+    (hc : ∀ c ∈ cs, c.2.Nodup ∧ (∀ v ∈ c.2, v ∈ m.vertices.map (·.1)) ∧
+      ∀ ab ∈ cyclicPairs c.2, JoinedP m ab.1 ab.2) :
+    ConsP (cs.foldl (fun m p => m.mkCell p.1 p.2) m) := by
+  induction cs generalizing m with
+  | nil => simpa using h
+  | cons p cs ih =>
+    simp only [List.map_cons, List.nodup_cons, List.mem_cons, forall_eq_or_imp] at hnd hdis hc
+    obtain ⟨⟨n1, n2, n3⟩, hc'⟩ := hc
+    have c1 := mkCell_consP m p.1 p.2 h hdis.1 n1 n2 n3
+    have c2 := mkCell_vkeys m p.1 p.2 n1
+    have c3 := mkCell_edges m p.1 p.2 n1
+    have c4 : (m.mkCell p.1 p.2).cells.map (·.1) = m.cells.map (·.1) ++ [p.1] := by
+      rw [mkCell_cells _ _ _ n1, filter_ne_of_not_mem_keys _ _ hdis.1]; simp
+    simp only [List.foldl_cons]
+    apply ih (m.mkCell p.1 p.2) c1 hnd.2
+    · intro k hk
+      rw [c4]
+      simp only [List.mem_append, List.mem_singleton, not_or]
+      exact ⟨hdis.2 k hk, fun hkp => hnd.1 (hkp ▸ hk)⟩
+    · intro c hcm
+      obtain ⟨e1, e2, e3⟩ := hc' c hcm
+      refine ⟨e1, by rw [c2]; exact e2, ?_⟩
+      intro ab hab
+      obtain ⟨e, he, hh⟩ := e3 ab hab
+      exact ⟨e, by rw [c3]; exact he, hh⟩
+
+theorem ofLists_consP (vs : List (Id × Rat × Rat)) (es : List (Id × Id × Id)) (cs : List (Id × List Id))
+    (vkeys : (vs.map (·.1)).Nodup) (ekeys : (es.map (·.1)).Nodup) (ckeys : (cs.map (·.1)).Nodup)
+    (eends : ∀ e ∈ es, e.2.1 ∈ vs.map (·.1) ∧ e.2.2 ∈ vs.map (·.1))
+    (cverts : ∀ c ∈ cs, c.2.Nodup ∧ ∀ v ∈ c.2, v ∈ vs.map (·.1))
+    (cjoined : ∀ c ∈ cs, ∀ ab ∈ cyclicPairs c.2,
+      ∃ e ∈ es, (e.2.1 = ab.1 ∧ e.2.2 = ab.2) ∨ (e.2.1 = ab.2 ∧ e.2.2 = ab.1)) :
+    ConsP (ofLists vs es cs) := by
+  unfold ofLists
+  obtain ⟨a1, a2, a3, a4⟩ := foldl_mkVertex_consP vs empty empty_consP vkeys (by simp [empty])
+  rw [show empty.vertices = [] from rfl, List.map_nil, List.nil_append] at a2
+  rw [show empty.edges = [] from rfl] at a3
+  rw [show empty.cells = [] from rfl] at a4
+  obtain ⟨b1, b2, b3, b4, b5, b6⟩ := foldl_mkEdge_consP es _ a1 ekeys (by simp [a3])
+    (by rw [a2]; exact eends)
+  apply foldl_mkCell_consP cs _ b1 ckeys (by simp [b4, a4])
+  intro c hc
+  refine ⟨(cverts c hc).1, by rw [b2, a2]; exact (cverts c hc).2, ?_⟩
+  intro ab hab
+  obtain ⟨e, he, hh⟩ := cjoined c hc ab hab
+  have := b6 e he
+  rcases hh with ⟨h1, h2⟩ | ⟨h1, h2⟩
+  · rw [h1, h2] at this; exact this
+  · rw [h1, h2] at this; exact JoinedP_symm this
+
+/-! ### delEdge -/
+
+def eraseE (k : Id) (v : Vertex) : Vertex := { v with ownEdges := v.ownEdges.erase k }
+
+theorem delEdge_none (m : Mesh) (k : Id) (h : m.edge? k = none) : m.delEdge k = m := by
+  simp [delEdge, h]
+
+theorem delEdge_vertices (m : Mesh) (k : Id) (e : SEdge) (h : m.edge? k = some e) :
+    (m.delEdge k).vertices = m.vertices.map fun p =>
+      (p.1, if p.1 = e.v2 then eraseE k (if p.1 = e.v1 then eraseE k p.2 else p.2)
+            else (if p.1 = e.v1 then eraseE k p.2 else p.2)) := by
+  simp only [delEdge, h, updVertex_vertices, List.map_map]
+  apply List.map_congr_left
+  rintro ⟨k', x⟩ _
+  simp only [Function.comp, eraseE]
+
+theorem delEdge_edges (m : Mesh) (k : Id) :
+    (m.delEdge k).edges = m.edges.filter fun p => p.1 != k := by
+  cases h : m.edge? k with
+  | none =>
+    rw [delEdge_none _ _ h, filter_ne_of_not_mem_keys]
+    exact (alGet?_eq_none_iff _ _).mp h
+  | some e => simp [delEdge, h]
+
+theorem delEdge_cells (m : Mesh) (k : Id) : (m.delEdge k).cells = m.cells := by
+  cases h : m.edge? k with
+  | none => rw [delEdge_none _ _ h]
+  | some e => simp [delEdge, h]
+
+theorem delEdge_vkeys (m : Mesh) (k : Id) : (m.delEdge k).vertices.map (·.1) = m.vertices.map (·.1) := by
+  cases h : m.edge? k with
+  | none => rw [delEdge_none _ _ h]
+  | some e => simp [delEdge_vertices _ _ _ h, List.map_map, Function.comp_def]
+
+theorem delEdge_sim (m : Mesh) (k : Id) : ∀ p' ∈ (m.delEdge k).vertices, ∃ p ∈ m.vertices,
+    p'.1 = p.1 ∧ p'.2.id = p.2.id ∧ p'.2.ownCells = p.2.ownCells ∧
+      ∀ x ∈ p'.2.ownEdges, x ∈ p.2.ownEdges := by
+  intro p' hp'
+  cases h : m.edge? k with
+  | none => rw [delEdge_none _ _ h] at hp'; exact ⟨p', hp', rfl, rfl, rfl, fun _ hx => hx⟩
+  | some e =>
+    rw [delEdge_vertices _ _ _ h] at hp'
+    obtain ⟨p, hp, rfl⟩ := List.mem_map.mp hp'
+    refine ⟨p, hp, rfl, ?_, ?_, ?_⟩
+    · split <;> split <;> rfl
+    · split <;> split <;> rfl
+    · intro x
+      split <;> split <;> simp only [eraseE] <;> intro hx
+      · exact List.mem_of_mem_erase (List.mem_of_mem_erase hx)
+      · exact List.mem_of_mem_erase hx
+      · exact List.mem_of_mem_erase hx
+      · exact hx
+
+theorem delEdge_ownEdgesP (m : Mesh) (k : Id) (hv : ∀ p ∈ m.vertices, p.1 = p.2.id)
+    (hek : ∀ q ∈ m.edges, q.1 = q.2.id) (h : OwnEdgesP m) : OwnEdgesP (m.delEdge k) := by
+  cases he : m.edge? k with
+  | none => rw [delEdge_none _ _ he]; exact h
+  | some e =>
+    intro p' hp'
+    rw [delEdge_vertices _ _ _ he] at hp'
+    obtain ⟨p, hp, rfl⟩ := List.mem_map.mp hp'
+    obtain ⟨h1, h2, h3⟩ := h p hp
+    have hid := hv p hp
+    rw [delEdge_edges]
+    have key : ∀ v : Vertex, v.id = p.2.id →
+        (v.ownEdges = p.2.ownEdges.erase k ∨ (v.ownEdges = p.2.ownEdges ∧ k ∉ p.2.ownEdges)) →
+        (∀ e ∈ v.ownEdges, ∃ ed, alGet? e (m.edges.filter fun p => p.1 != k) = some ed ∧
+            (ed.v1 = v.id ∨ ed.v2 = v.id)) ∧
+          (∀ q ∈ m.edges.filter (fun p => p.1 != k),
+            (q.2.v1 = v.id ∨ q.2.v2 = v.id) → q.2.id ∈ v.ownEdges) ∧ v.ownEdges.Nodup := by
+      intro v hvid hvo
+      rw [hvid]
+      refine ⟨?_, ?_, ?_⟩
+      · intro x hx
+        have hx' : x ∈ p.2.ownEdges ∧ x ≠ k := by
+          rcases hvo with ho | ⟨ho, hk⟩
+          · rw [ho] at hx
+            exact ⟨List.mem_of_mem_erase hx, fun hxk => by
+              subst hxk; exact (List.Nodup.mem_erase_iff h3).mp hx |>.1 rfl⟩
+          · rw [ho] at hx
+            exact ⟨hx, fun hxk => hk (hxk ▸ hx)⟩
+        obtain ⟨ed, hed, hends⟩ := h1 x hx'.1
+        exact ⟨ed, by rw [alGet?_filter_ne]; simp [hx'.2, hed], hends⟩
+      · intro q hq hends
+        simp only [List.mem_filter, bne_iff_ne, ne_eq] at hq
+        have hmem := h2 q hq.1 hends
+        have hne : q.2.id ≠ k := by rw [← hek q hq.1]; exact hq.2
+        rcases hvo with ho | ⟨ho, _⟩
+        · rw [ho]; exact (List.mem_erase_of_ne hne).mpr hmem
+        · rw [ho]; exact hmem
+      · rcases hvo with ho | ⟨ho, _⟩
+        · rw [ho]; exact h3.erase _
+        · rw [ho]; exact h3
+    have hnot : p.1 ≠ e.v1 → p.1 ≠ e.v2 → k ∉ p.2.ownEdges := by
+      intro n1 n2 hk
+      obtain ⟨ed, hed, hends⟩ := h1 k hk
+      have : ed = e := by
+        have : some ed = some e := by rw [← hed]; exact he
+        exact Option.some.inj this
+      subst this
+      rw [← hid] at hends
+      rcases hends with h | h
+      · exact n1 h.symm
+      · exact n2 h.symm
+    have herase2 : (p.2.ownEdges.erase k).erase k = p.2.ownEdges.erase k :=
+      List.erase_of_not_mem (fun hh => ((List.Nodup.mem_erase_iff h3).mp hh).1 rfl)
+    by_cases c1 : p.1 = e.v1 <;> by_cases c2 : p.1 = e.v2
+    · rw [if_pos c2, if_pos c1]
+      exact key _ rfl (Or.inl herase2)
+    · rw [if_neg c2, if_pos c1]
+      exact key _ rfl (Or.inl rfl)
+    · rw [if_pos c2, if_neg c1]
+      exact key _ rfl (Or.inl rfl)
+    · rw [if_neg c2, if_neg c1]
+      exact key _ rfl (Or.inr ⟨rfl, hnot c1 c2⟩)
+
+theorem delEdge_keysP (m : Mesh) (k : Id) (h : KeysP m) : KeysP (m.delEdge k) := by
+  obtain ⟨k1, k2, k3, k4, k5, k6⟩ := h
+  refine ⟨?_, ?_, by rw [delEdge_cells]; exact k3, by rw [delEdge_vkeys]; exact k4, ?_,
+    by rw [delEdge_cells]; exact k6⟩
+  · intro p' hp'
+    obtain ⟨p, hp, e1, e2, _⟩ := delEdge_sim m k p' hp'
+    rw [e1, e2]; exact k1 p hp
+  · intro q hq
+    rw [delEdge_edges] at hq
+    exact k2 q (List.mem_filter.mp hq).1
+  · rw [delEdge_edges]
+    exact k5.sublist (List.filter_sublist.map _)
+
+/-! ### delCell -/
+
+def eraseC (k : Id) (v : Vertex) : Vertex := { v with ownCells := v.ownCells.erase k }
+
+theorem delCell_none (m : Mesh) (k : Id) (h : m.cell? k = none) : m.delCell k = m := by
+  simp [delCell, h]
+
+theorem delCell_vertices (m : Mesh) (k : Id) (c : Cell) (h : m.cell? k = some c) (hnd : c.verts.Nodup) :
+    (m.delCell k).vertices = m.vertices.map fun p =>
+      (p.1, if p.1 ∈ c.verts then eraseC k p.2 else p.2) := by
+  simp only [delCell, h]
+  rw [foldl_updVertex (fun vx => { vx with ownCells := vx.ownCells.erase k }) c.verts hnd m]
+  rfl
+
+theorem delCell_cells (m : Mesh) (k : Id) (c : Cell) (h : m.cell? k = some c) (hnd : c.verts.Nodup) :
+    (m.delCell k).cells = m.cells.filter fun p => p.1 != k := by
+  simp only [delCell, h]
+  rw [foldl_updVertex (fun vx => { vx with ownCells := vx.ownCells.erase k }) c.verts hnd m]
+
+theorem delCell_edges (m : Mesh) (k : Id) (c : Cell) (h : m.cell? k = some c) (hnd : c.verts.Nodup) :
+    (m.delCell k).edges = m.edges := by
+  simp only [delCell, h]
+  rw [foldl_updVertex (fun vx => { vx with ownCells := vx.ownCells.erase k }) c.verts hnd m]
+
+theorem delCell_ownCellsP (m : Mesh) (k : Id) (hv : ∀ p ∈ m.vertices, p.1 = p.2.id)
+    (hck : ∀ q ∈ m.cells, q.1 = q.2.id) (h : OwnCellsP m) (hN : CellsNodupP m) :
+    OwnCellsP (m.delCell k) := by
+  cases he : m.cell? k with
+  | none => rw [delCell_none _ _ he]; exact h
+  | some c =>
+    have hnd : c.verts.Nodup := hN (k, c) (alGet?_some_mem he)
+    intro p' hp'
+    rw [delCell_vertices _ _ _ he hnd] at hp'
+    obtain ⟨p, hp, rfl⟩ := List.mem_map.mp hp'
+    obtain ⟨h1, h2, h3⟩ := h p hp
+    have hid := hv p hp
+    rw [delCell_cells _ _ _ he hnd]
+    have key : ∀ v : Vertex, v.id = p.2.id →
+        (v.ownCells = p.2.ownCells.erase k ∨ (v.ownCells = p.2.ownCells ∧ k ∉ p.2.ownCells)) →
+        (∀ e ∈ v.ownCells, ∃ cl, alGet? e (m.cells.filter fun p => p.1 != k) = some cl ∧
+            v.id ∈ cl.verts) ∧
+          (∀ q ∈ m.cells.filter (fun p => p.1 != k),
+            v.id ∈ q.2.verts → q.2.id ∈ v.ownCells) ∧ v.ownCells.Nodup := by
+      intro v hvid hvo
+      rw [hvid]
+      refine ⟨?_, ?_, ?_⟩
+      · intro x hx
+        have hx' : x ∈ p.2.ownCells ∧ x ≠ k := by
+          rcases hvo with ho | ⟨ho, hk⟩
+          · rw [ho] at hx
+            exact ⟨List.mem_of_mem_erase hx, fun hxk => by
+              subst hxk; exact (List.Nodup.mem_erase_iff h3).mp hx |>.1 rfl⟩
+          · rw [ho] at hx
+            exact ⟨hx, fun hxk => hk (hxk ▸ hx)⟩
+        obtain ⟨ed, hed, hends⟩ := h1 x hx'.1
+        exact ⟨ed, by rw [alGet?_filter_ne]; simp [hx'.2, hed], hends⟩
+      · intro q hq hends
+        simp only [List.mem_filter, bne_iff_ne, ne_eq] at hq
+        have hmem := h2 q hq.1 hends
+        have hne : q.2.id ≠ k := by rw [← hck q hq.1]; exact hq.2
+        rcases hvo with ho | ⟨ho, _⟩
+        · rw [ho]; exact (List.mem_erase_of_ne hne).mpr hmem
+        · rw [ho]; exact hmem
+      · rcases hvo with ho | ⟨ho, _⟩
+        · rw [ho]; exact h3.erase _
+        · rw [ho]; exact h3
+    have hnot : p.1 ∉ c.verts → k ∉ p.2.ownCells := by
+      intro n1 hk
+      obtain ⟨ed, hed, hends⟩ := h1 k hk
+      have : ed = c := by
+        have : some ed = some c := by rw [← hed]; exact he
+        exact Option.some.inj this
+      subst this
+      rw [← hid] at hends
+      exact n1 hends
+    by_cases c1 : p.1 ∈ c.verts
+    · rw [if_pos c1]
+      exact key _ rfl (Or.inl rfl)
+    · rw [if_neg c1]
+      exact key _ rfl (Or.inr ⟨rfl, hnot c1⟩)
+
+theorem delCell_keysP (m : Mesh) (k : Id) (h : KeysP m) (hN : CellsNodupP m) : KeysP (m.delCell k) := by
+  cases he : m.cell? k with
+  | none => rw [delCell_none _ _ he]; exact h
+  | some c =>
+    have hnd : c.verts.Nodup := hN (k, c) (alGet?_some_mem he)
+    obtain ⟨k1, k2, k3, k4, k5, k6⟩ := h
+    refine ⟨?_, by rw [delCell_edges _ _ _ he hnd]; exact k2, ?_, ?_,
+      by rw [delCell_edges _ _ _ he hnd]; exact k5, ?_⟩
+    · intro p' hp'
+      rw [delCell_vertices _ _ _ he hnd] at hp'
+      obtain ⟨p, hp, rfl⟩ := List.mem_map.mp hp'
+      have := k1 p hp
+      split <;> simpa [eraseC] using this
+    · intro q hq
+      rw [delCell_cells _ _ _ he hnd] at hq
+      exact k3 q (List.mem_filter.mp hq).1
+    · rw [delCell_vertices _ _ _ he hnd]
+      simpa [List.map_map, Function.comp_def] using k4
+    · rw [delCell_cells _ _ _ he hnd]
+      exact k6.sublist (List.filter_sublist.map _)
+
+/-! ### generateMesh: the edge rebuild -/
+
+theorem foldl_inv {α : Type} (P : Mesh → Prop) (f : Mesh → α → Mesh)
+    (l : List α) (hf : ∀ m, ∀ a ∈ l, P m → P (f m a)) (m : Mesh) (h : P m) : P (l.foldl f m) := by
+  induction l generalizing m with
+  | nil => exact h
+  | cons a l ih =>
+    simp only [List.foldl_cons]
+    exact ih (fun m b hb => hf m b (List.mem_cons_of_mem _ hb)) _ (hf m a (List.mem_cons_self ..) h)
+
+def gm1 (m : Mesh) (removed : List (Id × Vertex)) : Mesh :=
+  removed.foldl (fun m p =>
+      p.2.ownCells.foldl (fun m c => m.updCell c fun cl => { cl with verts := cl.verts.erase p.1 }) m) m
+
+def gm2 (m1 : Mesh) : Mesh := m1.edges.foldl (fun m p => m.delEdge p.1) m1
+
+def gm4 (m2 : Mesh) (used : List Id) (segs : List (Id × Id)) : Mesh :=
+  (List.zip (List.range segs.length) segs).foldl
+      (fun m p => m.mkEdge (p.1 : Int) p.2.1 p.2.2)
+      { vertices := m2.vertices.filter fun p => used.contains p.1, edges := [], cells := m2.cells }
+
+theorem gm1_ve (m : Mesh) (removed : List (Id × Vertex)) :
+    (gm1 m removed).vertices = m.vertices ∧ (gm1 m removed).edges = m.edges := by
+  unfold gm1
+  apply foldl_inv (fun m' => m'.vertices = m.vertices ∧ m'.edges = m.edges)
+  · intro m' p _ h
+    apply foldl_inv (fun m'' => m''.vertices = m.vertices ∧ m''.edges = m.edges)
+    · intro m'' c _ h'
+      exact h'
+    · exact h
+  · exact ⟨rfl, rfl⟩
+
+theorem foldl_delEdge_edges (l : List (Id × SEdge)) (m : Mesh) :
+    ∀ q ∈ (l.foldl (fun m p => m.delEdge p.1) m).edges, q ∈ m.edges ∧ q.1 ∉ l.map (·.1) := by
+  induction l generalizing m with
+  | nil => intro q hq; exact ⟨hq, by simp⟩
+  | cons a l ih =>
+    intro q hq
+    simp only [List.foldl_cons] at hq
+    obtain ⟨h1, h2⟩ := ih _ q hq
+    rw [delEdge_edges] at h1
+    simp only [List.mem_filter, bne_iff_ne, ne_eq] at h1
+    refine ⟨h1.1, ?_⟩
+    simp only [List.map_cons, List.mem_cons, not_or]
+    exact ⟨h1.2, h2⟩
+
+theorem gm2_spec (m : Mesh) (hv : ∀ p ∈ m.vertices, p.1 = p.2.id)
+    (hek : ∀ q ∈ m.edges, q.1 = q.2.id) (hE : OwnEdgesP m) :
+    ∀ p ∈ (gm2 m).vertices, p.1 = p.2.id ∧ p.2.ownEdges = [] := by
+  have hinv : (∀ p ∈ (gm2 m).vertices, p.1 = p.2.id) ∧ (∀ q ∈ (gm2 m).edges, q.1 = q.2.id) ∧
+      OwnEdgesP (gm2 m) := by
+    unfold gm2
+    apply foldl_inv (fun m' => (∀ p ∈ m'.vertices, p.1 = p.2.id) ∧ (∀ q ∈ m'.edges, q.1 = q.2.id) ∧
+      OwnEdgesP m')
+    · intro m' a _ ⟨h1, h2, h3⟩
+      refine ⟨?_, ?_, delEdge_ownEdgesP m' a.1 h1 h2 h3⟩
+      · intro p' hp'
+        obtain ⟨p, hp, e1, e2, _⟩ := delEdge_sim m' a.1 p' hp'
+        rw [e1, e2]; exact h1 p hp
+      · intro q hq
+        rw [delEdge_edges] at hq
+        exact h2 q (List.mem_filter.mp hq).1
+    · exact ⟨hv, hek, hE⟩
+  have hnil : (gm2 m).edges = [] := by
+    apply List.eq_nil_iff_forall_not_mem.mpr
+    intro q hq
+    obtain ⟨h1, h2⟩ := foldl_delEdge_edges m.edges m q hq
+    exact h2 (List.mem_map.mpr ⟨q, h1, rfl⟩)
+  intro p hp
+  refine ⟨hinv.1 p hp, ?_⟩
+  apply List.eq_nil_iff_forall_not_mem.mpr
+  intro e he
+  obtain ⟨ed, hed, _⟩ := (hinv.2.2 p hp).1 e he
+  rw [hnil] at hed
+  simp [alGet?] at hed
+
+theorem foldl_mkEdge_nat_ownEdgesP (l : List (Nat × Id × Id)) (m : Mesh)
+    (hv : ∀ p ∈ m.vertices, p.1 = p.2.id) (hE : OwnEdgesP m)
+    (hnd : (l.map (·.1)).Nodup) (hdis : ∀ i : Nat, i ∈ l.map (·.1) → (i : Int) ∉ m.edges.map (·.1)) :
+    OwnEdgesP (l.foldl (fun m p => m.mkEdge (p.1 : Int) p.2.1 p.2.2) m) := by
+  induction l generalizing m with
+  | nil => exact hE
+  | cons a l ih =>
+    simp only [List.map_cons, List.nodup_cons, List.mem_cons, forall_eq_or_imp] at hnd hdis
+    simp only [List.foldl_cons]
+    apply ih
+    · intro p' hp'
+      rw [mkEdge_vertices] at hp'
+      obtain ⟨p, hp, rfl⟩ := List.mem_map.mp hp'
+      simp only
+      split
+      · rw [addEdgeTo_id]; exact hv p hp
+      · exact hv p hp
+    · exact mkEdge_ownEdgesP m _ _ _ hv hE hdis.1
+    · exact hnd.2
+    · intro i hi
+      rw [mkEdge_ekeys _ _ _ _ hdis.1]
+      simp only [List.mem_append, List.mem_singleton, not_or]
+      refine ⟨hdis.2 i hi, ?_⟩
+      intro hia
+      have : i = a.1 := by omega
+      exact hnd.1 (this ▸ hi)
+
+theorem gm4_ownEdgesP (m2 : Mesh) (used : List Id) (segs : List (Id × Id))
+    (h : ∀ p ∈ m2.vertices, p.1 = p.2.id ∧ p.2.ownEdges = []) :
+    OwnEdgesP (gm4 m2 used segs) := by
+  unfold gm4
+  apply foldl_mkEdge_nat_ownEdgesP
+  · intro p hp
+    exact (h p (List.mem_filter.mp hp).1).1
+  · intro p hp
+    have := (h p (List.mem_filter.mp hp).1).2
+    simp only at hp ⊢
+    rw [this]
+    simp
+  · rw [List.map_fst_zip (by simp)]
+    exact List.nodup_range
+  · simp
+
+theorem gm_ownEdgesP (m : Mesh) (removed : List (Id × Vertex)) (used : List Id) (segs : List (Id × Id))
+    (f : List (Id × Cell) → List (Id × Cell)) (hK : KeysP m) (hE : OwnEdgesP m) :
+    OwnEdgesP { gm4 (gm2 (gm1 m removed)) used segs with
+      cells := f (gm4 (gm2 (gm1 m removed)) used segs).cells } := by
+  refine OwnEdgesP_of_sim (gm4 (gm2 (gm1 m removed)) used segs) _ rfl
+    (fun p' hp' => ⟨p', hp', rfl, rfl⟩) ?_
+  apply gm4_ownEdgesP
+  obtain ⟨e1, e2⟩ := gm1_ve m removed
+  apply gm2_spec
+  · rw [e1]; exact hK.1
+  · rw [e2]; exact hK.2.1
+  · exact OwnEdgesP_of_sim m _ e2 (fun p' hp' => ⟨p', e1 ▸ hp', rfl, rfl⟩) hE
+
+theorem generateMesh_ownEdgesP (m : Mesh) (ne : Nat) (hK : KeysP m) (hE : OwnEdgesP m) :
+    OwnEdgesP (m.generateMesh ne false).mesh := by
+  exact gm_ownEdgesP m _ _ _ (fun c => c.filter fun p => !p.2.verts.isEmpty) hK hE
+
 end Mesh
 
 end Forsys
